@@ -3,7 +3,7 @@
 # test recorded as stable-pass in /root/.vp/BASELINE.json still passes.
 export GOFLAGS=-mod=mod GOPROXY=off GOSUMDB=off GOTOOLCHAIN=local
 OUT=${1:-/tmp/baseline_off.$$.json}
-cd /repo || exit 2
+cd "${VERIF_REPO:-/repo}" || exit 2
 go test -json -vet=off -count=1 -timeout 25m ./... > "$OUT" 2>/dev/null
 python3 - "$OUT" <<'PY'
 import json,sys
